@@ -384,7 +384,9 @@ class ExpressionStream(Stream):
                     return "lint-json: %s: %s" % (what, impl_out[-40:])
                 if mm.group(1) != "11":
                     return "neighbour-disturbed: %s: src/good.py is %s" % (what, mm.group(1))
-                if not ok and mm.group(2) not in ("E", "00"):
+                # (a tag without a value declares nothing -- fix 567a3c7 --, so the rest of the file still counts: the file then
+                # lacks licensing information only, which is "reported as lacking information" all the same)
+                if not ok and mm.group(2) not in (("E", "00", "10") if not case.get("e", "x").strip() else ("E", "00")):
                     return "bad-expression: %s: the file is neither a read error nor without information (%s)" % (what, mm.group(2))
                 if ok and not deep_case and mm.group(2) != "11":
                     return "rejects-valid: %s: the file's information is %s" % (what, mm.group(2))
@@ -403,7 +405,8 @@ class ExpressionStream(Stream):
                 return "failed-but-wrote: %s: %s changed" % (what, changed)
             return None
         if pl == "template":
-            if not ok:
+            # (a licence tag without a value in a template declares nothing -- fix 567a3c7 --: such a template is not broken)
+            if not ok and case.get("e", "x").strip():
                 if code == 0:
                     return "broken-template-accepted: %s: status 0" % what
                 if changed:
